@@ -1,7 +1,7 @@
 ---- MODULE MC_Targets ----
 EXTENDS Targets, Json
 
-WNodeIds == 1..18
+WNodeIds == 1..48
 
 VJson(v) == [notInTarget |-> v.notInTarget, importMismatch |-> v.importMismatch, missing |-> v.missing,
              exportMismatch |-> v.exportMismatch, conforms |-> Conforms(v), diagnostics |-> Diagnostics(v)]
